@@ -31,7 +31,7 @@ func init() {
 		Assumptions: []string{"inputs handed to bsonkit/mongokit directly are normalised by bsonkit.Transform first, as their documentation requires", "the 60 s per-call limit is the only wall-clock verdict (calls normally take microseconds)"},
 		Batches:     func(tier string) int { return 16 },
 		Require: func(tier string) map[string]int64 {
-			return map[string]int64{"calls_bsonkit": 10000, "calls_mongokit": 10000, "calls_driver": 10000, "errors_returned": 5000, "probes": 300, "doc_or_binary_id_writes": 200}
+			return map[string]int64{"calls_bsonkit": 10000, "calls_mongokit": 10000, "calls_driver": 10000, "errors_returned": 5000, "probes": 300, "probes_after_excluded_panics": 100, "doc_or_binary_id_writes": 200}
 		},
 		WorkerTimeoutSec: func(tier string) int {
 			if tier == "thorough" {
@@ -98,6 +98,56 @@ func runC20(c *fw.Ctx) {
 	}
 	defer func() { engine.Close() }()
 	ctx := context.Background()
+	// the panics the property excludes from its verdict (nil arguments) are
+	// provoked inside the callback of an auto-transaction write: whether the
+	// call panics or returns an error is not judged, but the engine must serve
+	// the next call (mechanism: deferred Abort after a panic in a callback)
+	for k := 0; k < 12; k++ {
+		idx := 9500000 + c.Batch*12 + k
+		if c.Skip(idx) {
+			continue
+		}
+		var models []mongo.WriteModel
+		ok := mongo.NewInsertOneModel().SetDocument(bson.D{{Key: "z", Value: int32(k)}})
+		switch k % 6 {
+		case 0:
+			models = []mongo.WriteModel{ok, mongo.NewUpdateOneModel().SetUpdate(bson.D{{Key: "$set", Value: bson.D{{Key: "a", Value: int32(1)}}}})}
+		case 1:
+			models = []mongo.WriteModel{mongo.NewUpdateManyModel().SetFilter(bson.D{})}
+		case 2:
+			models = []mongo.WriteModel{ok, mongo.NewInsertOneModel()}
+		case 3:
+			models = []mongo.WriteModel{mongo.NewReplaceOneModel().SetFilter(bson.D{})}
+		case 4:
+			models = []mongo.WriteModel{ok, mongo.NewDeleteOneModel()}
+		default:
+			models = []mongo.WriteModel{ok, nil}
+		}
+		detail := func() string {
+			return fmt.Sprintf("BulkWrite with a nil argument in a write model (variant %d, ordered=%v)", k%6, k < 6)
+		}
+		c.Case(idx, func() interface{} { return detail() }, c20Key, func() {
+			c.Eval(1)
+			begin(detail)
+			defer end()
+			func() {
+				defer func() {
+					if p := recover(); p != nil {
+						c.Count("excluded_panics_recovered", 1)
+					}
+				}()
+				client.Database("c20").Collection("nilargs").BulkWrite(ctx, models, options.BulkWrite().SetOrdered(k < 6))
+			}()
+			c.Count("probes_after_excluded_panics", 1)
+			c20Probe(c, ctx, client, engine, detail)
+		})
+		if c.Violations() > 0 {
+			engine.Close()
+			if !open() {
+				return
+			}
+		}
+	}
 	for q := 0; q < n; q++ {
 		idx := c.Batch*n + q
 		if c.Skip(idx) {
@@ -160,6 +210,12 @@ func runC20(c *fw.Ctx) {
 func c20Probe(c *fw.Ctx, ctx context.Context, client lungo.IClient, engine *lungo.Engine, detail func() string) bool {
 	c.Count("probes", 1)
 	coll := client.Database("probe").Collection("p")
+	// (look at the slot first: a write on a leaked slot would wait out the
+	// one minute acquisition timeout)
+	if free, active, alive, _ := engine.VerifState(); free != 1 || active || !alive {
+		c.Violate("engine-unusable", fmt.Sprintf("after the call the writer slot is not free (free=%d txn=%v alive=%v)", free, active, alive), map[string]interface{}{"input": detail()})
+		return false
+	}
 	_, err := coll.InsertOne(ctx, bson.D{{Key: "_id", Value: int32(1)}})
 	if err != nil {
 		c.Violate("engine-unusable", "after the call a probe insert fails: "+err.Error(), map[string]interface{}{"input": detail()})
